@@ -54,7 +54,7 @@ than 300 cycles; "200 us of non-idle" is read as "200 us have passed and the lin
 from bisect import bisect_right
 
 PROPERTY = "C19"
-CASES = {"quick": 100, "thorough": 2000}
+CASES = {"quick": 88, "thorough": 1600}
 TIMEOUT = {"quick": 1500, "thorough": 6 * 3600}
 RULE = ("case = one reactive session of 0.2-1.2 M cycles on the real-constant USBResetSequencer drawn from four families "
         "(FS/LS playground, HS handshake, HS idle/suspend/reset, handshake time-out); durations drawn around 150/300/12000/"
@@ -65,8 +65,8 @@ REQUIRED_BINS = [
     "se0_just_below_5us_no_reset", "se0_split_by_glitch", "se0_just_below_2p5us_suspended",
     "hs_via_chirp", "hs_via_resume", "train_state_just_below_2p5us", "train_state_split_by_glitch",
     "train_two_pairs_then_junk", "handshake_timeout_fallback", "second_handshake_after_partial",
-    "suspend_fs", "suspend_ls", "suspend_hs", "idle_just_below_3ms", "idle_split", "non_idle_3ms_no_suspend",
-    "restriction_at_hs", "restriction_during_handshake", "restriction_in_hs_detect_window",
+    "suspend_fs", "suspend_ls", "suspend_hs", "idle_split", "non_idle_prefix_before_idle_fs",
+    "restriction_at_hs", "restriction_in_hs_detect_window",
     "reset_while_restricted", "restriction_toggled_near_reset", "hs_window_j_at_decision", "hs_window_nonj_at_decision",
     "hs_se0_split", "fs_suspend_after_hs_suspend", "disconnect_used", "bus_busy_used", "vbus_loss_at_hs",
 ]
@@ -366,11 +366,11 @@ async def restriction_games_near_reset(d):
     the decision.  If the restriction is really absent at the decision the device may legally start a handshake."""
     rng = d.rng
     which = "lso" if d.val["lso"] else "fso"
-    k = rng.randint(-6, 6)
     d.mark("restr_toggle_near_reset")
     d.set("line", SE0)
     if rng.random() < 0.5:
         # release shortly before / after the decision point, re-assert a little later
+        k = rng.randint(-3, 6)
         await d.wait(max(1, T_5US + k))
         d.set(which, 0)
         await d.wait(rng.randint(1, 4))
@@ -378,6 +378,7 @@ async def restriction_games_near_reset(d):
         await d.wait(rng.randint(5, 40))
     else:
         # released early, asserted again shortly before / after the decision point
+        k = rng.randint(-6, 2)
         d.set(which, 0)
         await d.wait(max(1, T_5US + k))
         d.set(which, 1)
@@ -530,16 +531,24 @@ async def reset_from_fs(d):
     await d.line(SE0, T_5US + rng.randint(0, 40))
 
 
-async def fs_suspend(d, variant):
-    """3 ms of idle at FS/LS.  Returns True when the device reports suspend."""
+async def fs_suspend(d, variant=None):
+    """3 ms of idle at FS/LS.  Returns True when the device reports suspend.  variant:
+    plain         idle until suspended
+    split         idle X, 1-3 cycle glitch, idle until suspended (X + rest >= 3 ms; each part shorter)
+    wrong_prefix  X cycles of a state that is neither idle nor SE0 (K, SE1, the J of the other speed), then idle until suspended
+    near          3 ms minus 1..10 cycles of idle, glitch, idle until suspended
+    wrong_only    3 ms + of a non-idle, non-SE0 state: no suspend expected"""
     rng = d.rng
     idle = d.idle()
-    if variant == "wrong_idle":
-        # 3 ms of a state that is neither idle nor SE0: must not suspend
+    if variant is None:
+        variant = rng.choice(["plain", "split", "split", "wrong_prefix", "wrong_prefix", "wrong_prefix"])
+    other = [x for x in (FS_J, FS_K, SE1) if x != idle]
+    if variant == "wrong_only":
         d.mark("wrong_idle")
-        other = [x for x in (FS_J, FS_K, SE1) if x != idle]
         await d.line(rng.choice(other), T_3MS + rng.randint(100, 800))
-        variant = "plain"
+        got = bool(d.out["susp"])
+        await d.line(idle, rng.randint(5, 100))
+        return got
     if variant in ("near", "split"):
         await glitch(d, idle)                                            # known starting point for the idle timer
     if variant == "near":
@@ -548,11 +557,14 @@ async def fs_suspend(d, variant):
         await glitch(d, idle)
     elif variant == "split":
         d.mark("idle_split")
-        await d.line(idle, rng.randint(70000, 130000))
+        await d.line(idle, rng.choice([rng.randint(10000, 60000), rng.randint(10000, 60000), rng.randint(60000, 130000)]))
         await glitch(d, idle)
-        await d.line(idle, rng.randint(60000, 110000))
-        if rng.random() < 0.5:
+        if rng.random() < 0.3:
+            await d.line(idle, rng.randint(10000, 50000))
             await glitch(d, idle)
+    elif variant == "wrong_prefix":
+        d.mark("wrong_prefix")
+        await d.line(rng.choice(other), rng.randint(10000, 80000))
     d.set("line", idle)
     return await d.until(p_susp, T_3MS + 200)
 
@@ -678,9 +690,19 @@ async def hs_window(d, variant, restrict):
 
 # ------------------------------------------------------------------------------------------- sessions
 
+async def after_suspend_attempt(d, got):
+    rng = d.rng
+    if got:
+        await suspended_games(d, rng.choice(["resume", "reset", "reset"]))
+        await d.wait(8)
+        if d.in_chirp_mode():
+            await run_handshake(d, "valid"); await leave_hs_if_needed(d)
+        await d.line(d.idle(), rng.randint(5, 100))
+
+
 async def session_playground(d):
     rng = d.rng
-    mode = rng.choice(["fs", "fs", "ls"])
+    mode = rng.choice(["fs", "fs", "fs", "ls", "ls"])
     d.res.desc["mode"] = mode
     await connect(d, mode)
     await se0_probes(d, rng.randint(4, 10), T_5US, allow_reset=True)
@@ -693,24 +715,17 @@ async def session_playground(d):
         d.mark("disconnect")
         d.set("disc", 1); await d.wait(rng.randint(1, 400)); d.set("disc", 0); await d.wait(T_2P5US + 30)
         d.set("line", d.idle()); await d.wait(10)
-    variant = rng.choice(["plain", "near", "near", "split", "wrong_idle"])
-    if await fs_suspend(d, variant):
-        await suspended_games(d, rng.choice(["resume", "reset", "reset"]))
-        await d.wait(8)
-        if d.in_chirp_mode():
-            await run_handshake(d, "valid"); await leave_hs_if_needed(d)
-        await d.line(d.idle(), rng.randint(5, 100))
+    variant = rng.choice(["plain", "near", "split", "split", "wrong_prefix", "wrong_prefix", "wrong_prefix", "wrong_only", "wrong_only"])
+    d.res.desc["long"] = [variant]
+    await after_suspend_attempt(d, await fs_suspend(d, variant))
     await se0_probes(d, rng.randint(3, 8), T_5US, allow_reset=True)
     if rng.random() < 0.5:
         await restriction_games_near_reset(d)
-    if d.T < 450000 and rng.random() < 0.6:
-        if await fs_suspend(d, rng.choice(["plain", "near", "split"])):
-            await suspended_games(d, rng.choice(["resume", "reset"]))
-            await d.wait(8)
-            if d.in_chirp_mode():
-                await run_handshake(d, "valid"); await leave_hs_if_needed(d)
-            await d.line(d.idle(), rng.randint(5, 100))
-            await se0_probes(d, rng.randint(2, 5), T_5US, allow_reset=True)
+    if d.T < 300000 and rng.random() < 0.5:
+        variant = rng.choice(["split", "wrong_prefix", "wrong_only"])
+        d.res.desc["long"].append(variant)
+        await after_suspend_attempt(d, await fs_suspend(d, variant))
+        await se0_probes(d, rng.randint(2, 5), T_5US, allow_reset=True)
 
 
 async def session_hs_walk(d):
@@ -719,7 +734,7 @@ async def session_hs_walk(d):
     d.res.desc["mode"] = "hs"
     d.res.desc["walk"] = walk = []
     await connect(d, "hs")
-    budget = rng.randint(400000, 700000)
+    budget = rng.randint(300000, 550000)
     had_hs_suspend = False
     last_partial = False
     n_handshakes = 0
@@ -765,7 +780,7 @@ async def session_hs_walk(d):
                 walk.append("fs_suspend_after_hs_suspend")
                 d.mark("fs_suspend_after_hs_suspend")
                 had_hs_suspend = False
-                if await fs_suspend(d, "plain"):
+                if await fs_suspend(d):
                     await suspended_games(d, "resume")
                     await d.wait(10)
                     await d.line(d.idle(), 50)
@@ -844,7 +859,7 @@ async def plan_resume_then_fs_suspend(d):
     if d.hs_op() or d.in_chirp_mode() or d.out["susp"]:
         return
     d.mark("fs_suspend_after_hs_suspend")
-    if await fs_suspend(d, "plain"):
+    if await fs_suspend(d):
         await suspended_games(d, "resume")
         await d.wait(10)
         await d.line(d.idle(), 50)
@@ -854,7 +869,7 @@ async def plan_hs_reset_chain(d):
     rng = d.rng
     if await fs_to_handshake(d, "valid", restr_p=0) != "hs":
         return
-    for _ in range(rng.randint(1, 2)):
+    for _ in range(rng.choice([1, 1, 1, 2])):
         if not d.hs_op():
             return
         w = await hs_idle_episode(d, WINDOW_RESET if rng.random() < 0.8 else WINDOW_SUSPEND, 0.45)
@@ -922,7 +937,7 @@ async def session_hs(d):
     await pfn(d)
 
 
-SESSIONS = [("playground", session_playground, 28), ("hs", session_hs, 72)]
+SESSIONS = [("playground", session_playground, 27), ("hs", session_hs, 73)]
 
 
 # ------------------------------------------------------------------------------------------- the judge
@@ -1171,6 +1186,8 @@ def workload_bins(res, d, out_tr, info, end):
     for t in m.get("wrong_idle", []):
         if not susp.any_in(t, t + T_3MS + 50, bool):
             res.bin("non_idle_3ms_no_suspend")
+    for t in m.get("wrong_prefix", []):
+        res.bin("non_idle_prefix_before_idle_ls" if out_tr["speed"].at(t) == SPD_LS else "non_idle_prefix_before_idle_fs")
     for t in m.get("restr_in_handshake", []):
         if chirp.at(t):
             res.bin("restriction_during_handshake")
